@@ -414,6 +414,7 @@ def run(ctx, out, tier):
     from rules.C10 import check_tagpos
     check_tagpos(ctx, out, "C03.tagpos")
     shared.sh_traverse(ctx, out)
+    shared.sh_units(ctx, out)
     return meta()
 
 
